@@ -59,7 +59,7 @@ CHECKS = {
             "guard/edge-dominance, who-may-write and provenance rules over the async client bodies (MIR)",
             "Per-call facts that make the token map a refinement of the open pre-authorisations: guards dominate all terminal traffic, "
             "refusals return the documented error without traffic, the map is private and mutated only at the three allowed sites, what is "
-            "recorded is (token, StatusInformation.receipt_no of this reservation), reversals act on exactly the removed receipt number; the retry wrapper's await budget is per packet (C10-a shared), so a live exchange is not re-issued.",
+            "recorded is (token, StatusInformation.receipt_no of this reservation), reversals act on exactly the removed receipt number; the retry wrapper's await budget is per packet (C10-a shared), so a live exchange is not re-issued. A step that empties the whole map is reachable only on the is_empty() edge; once the token is removed no return is reachable around the reversal exchange.",
             "The induction over call histories from these per-call facts is argued in DESIGN.md, not mechanised. " + TB),
     "C08": ("other", "5.8",
             "expression-tree comparison of request/summary construction with a wiring table; callee identity of saturating_sub",
@@ -91,7 +91,7 @@ CHECKS = {
             "await-type analysis (generic argument of IntoFuture::into_future) + budget provenance + interval discharge of config arithmetic",
             "Every await point of the client is classified; raw transport awaits are accepted only inside a function whose every call "
             "is the direct argument of tokio::time::timeout; retry streams derive from take(n>0); timeouts are positive; arithmetic on "
-            "configuration values cannot overflow; a deadline bounding an await inside a reply loop is computed inside that loop. All 29 await points, both budgets, every Overflow site with config operands.",
+            "configuration values cannot overflow; a deadline bounding an await inside a reply loop is computed inside that loop. The retry stream is assembled from constant constructors only (repeat / throttle(const) / take(const)): a computed pause is not bounded by this rule and is reported. All 29 await points, both budgets, every Overflow site with config operands.",
             "Wall-clock values and tokio's timer are trusted; 'finite' not 'how long'. " + TB),
     "C02": ("proof", "5.2",
             "site enumeration over the decode-path call-graph closure + guard-fact/interval/contract discharge of every panic, overflow, truncation, allocation site; loop termination classification",
@@ -109,19 +109,19 @@ CHECKS = {
             "who-may-call on the byte source, dominance/edge rules and prover-backed buffer-length equalities in read_packet, header-constant agreement across three sites",
             "Only read_exact ever reads the source; the read plan is header(3) / +2 on the 0xFF edge / exactly the announced body (length "
             "equality proved over Vec-length versions); every read failure returns Err without parsing; header constants, byte order and "
-            "offsets agree between Adpu::serialize, Adpu::deserialize, read_packet and the specification.",
+            "offsets agree between Adpu::serialize, Adpu::deserialize, read_packet and the specification. A receive routine of another shape (helpers, a separate header array, appended bytes) is decided by symbolic execution of its buffer operations on every path to the parser (bufsim): same plan, and the parser gets exactly the bytes read, in order.",
             "Chunking/Pending behaviour is tokio's read_exact contract (trusted); per-length byte equality is not decided. " + TB),
     "C16": ("other", "5.16",
             "decision-tree extraction (interval path enumeration) of writer and reader of each length style + constant/operand rules; C02 site rule on the readers",
             "Truncated prefixes are errors (all sites of the six readers discharged); BER and APDU switch points, markers, number of length "
             "bytes, byte order and data offsets agree between writer, reader and the specification; LLVAR uses exactly N base-10 digits with "
-            "masks F0/0F on both sides; Fixed<N> requires and returns exactly N; no defined prefix is refused once all its bytes are there (256-value case split per reader); the length bytes are computed from the length by casts only.",
+            "masks F0/0F on both sides; Fixed<N> requires and returns exactly N; no defined prefix is refused once all its bytes are there (256-value case split per reader); the length bytes are computed from the length by casts only. The LLVAR digit loop is left only when all N positions are written; a length style outside the table whose reader consumes no prefix writes none; a writer that builds its bytes by push/extend is read off the bytes it returns (bufsim).",
             "Arithmetic inside a form (k % 10, digit weights) is out of static reach and not claimed. " + TB),
     "C17": ("other", "5.17",
             "C02 site rule on the digit decoders, checked-arithmetic shape rule, inverse-primitive and constant-set agreement rules",
             "Digits that do not fit are an error (overflow sites discharged; accumulator only through checked ops whose None becomes Err); "
             "Default is LE and BigEndian BE for all ten integral pairs; two-byte tag pages {1F, FF} agree between writer, reader and spec; "
-            "the FFFF receipt sentinel is routed to the same codec on both sides; hex/CP437 use inverse primitives, one code page, the whole input is decoded and only trailing NULs are trimmed; tag pages are decided by a 256-value case split, the writer by its symbolic output, and the reader refuses no tag whose bytes are all there.",
+            "the FFFF receipt sentinel is routed to the same codec on both sides; hex/CP437 use inverse primitives, one code page, the whole input is decoded and only trailing NULs are trimmed; tag pages are decided by a 256-value case split, the writer by its symbolic output, and the reader refuses no tag whose bytes are all there. A BCD encoder that peels digits off a running value leaves its loop only at 0 (or after N positions with c^N > MAX of the type).",
             "Value-level round trips per value are not decided. " + TB),
     "C11": ("other", "5.11",
             "expression-provenance rules on the manifest and answer construction, constant-table distinctness, protocol monitor on the upload sequence",
@@ -133,7 +133,7 @@ CHECKS = {
             "generated-program grid over the derive attribute grammar, type-checked with the real macro under the MIR driver; extracted encoder/decoder layouts compared with the generator's own description + C01-a/e, C13, C02-c rules per struct",
             "Quick: 150 generated structs (110 single-field grid points sampled by VERIF_SEED + 40 random structs up to 8 fields / depth 3); "
             "thorough: the full single-field grid (1311 structs) + 300 random structs. For each, encoder layout == declared layout == decoder "
-            "layout, encoder/decoder agree, tag-loop rules, loop termination, suffix contract and control field; the generic repeated-field reader keeps an element only if it consumed input, the optional-field reader is total without a tag, the integral value codecs keep their byte order (shared with C17-b). Programs are never executed.",
+            "layout, encoder/decoder agree, tag-loop rules, loop termination, suffix contract and control field; the generic repeated-field reader keeps an element only if it consumed input, the optional-field reader is total without a tag, the integral value codecs keep their byte order (shared with C17-b). A present optional field is written exactly as the field itself (no condition on the value or its encoding), an absent one writes nothing; the repeated-field writer hands its tag to every element. Programs are never executed.",
             "The quantifier over programs is sampled (quick) / bounded-exhaustive for single fields (thorough); value-level inverse not decided. " + TB),
 }
 
